@@ -37,8 +37,33 @@ pub uninterp spec fn sroot_root(s: &SourceRoot) -> FileId;
 /// ASSUMED about the file system: every id it can ever hand out lies in a finite universe that does not change
 /// (finitely many distinct readable paths; an OS file system with `./` path aliases does NOT satisfy this)
 pub uninterp spec fn fs_universe<F: ?Sized>(fs: &F) -> Set<FileId>;
-/// the file an include path resolves to in the given directories (None: not found); uninterpreted
-pub uninterp spec fn resolve_spec<F: ?Sized>(fs: &F, path: EcoString, dirs: Seq<FilePath>) -> Option<FileId>;
+/// what the file system answers (uninterpreted): is a path readable, which id belongs to it; joining a directory and an include path
+pub uninterp spec fn fs_readable<F: ?Sized>(fs: &F, p: FilePath) -> bool;
+pub uninterp spec fn fs_id<F: ?Sized>(fs: &F, p: FilePath) -> FileId;
+pub uninterp spec fn path_join(d: FilePath, s: Seq<char>) -> FilePath;
+pub uninterp spec fn eco_text(e: &EcoString) -> Seq<char>;
+/// the file an include path resolves to: the FIRST directory of the list in which it is readable (None: not found)
+pub open spec fn resolve_from<F: ?Sized>(fs: &F, path: EcoString, dirs: Seq<FilePath>, i: int) -> Option<FileId> decreases dirs.len() - i
+{
+    if i < 0 || i >= dirs.len() { None }
+    else if fs_readable(fs, path_join(dirs[i], eco_text(&path))) { Some(fs_id(fs, path_join(dirs[i], eco_text(&path)))) }
+    else { resolve_from(fs, path, dirs, i + 1) }
+}
+pub open spec fn resolve_spec<F: ?Sized>(fs: &F, path: EcoString, dirs: Seq<FilePath>) -> Option<FileId> { resolve_from(fs, path, dirs, 0) }
+/// two file-system states that read and number the paths alike resolve alike
+pub open spec fn fs_same<F: ?Sized>(a: &F, b: &F) -> bool {
+    (forall|q: FilePath| #[trigger] fs_readable(a, q) == fs_readable(b, q)) && (forall|q: FilePath| #[trigger] fs_id(a, q) == fs_id(b, q))
+}
+pub proof fn lemma_resolve_frame<F: ?Sized>(a: &F, b: &F, path: EcoString, dirs: Seq<FilePath>, i: int)
+    requires fs_same(a, b) ensures resolve_from(a, path, dirs, i) == resolve_from(b, path, dirs, i)
+    decreases dirs.len() - i
+{ if 0 <= i < dirs.len() { lemma_resolve_frame(a, b, path, dirs, i + 1); } }
+pub assume_specification [EcoString::as_str] (e: &EcoString) -> (r: &str) ensures r@ == eco_text(e);
+/// FilePath::join (file_system.rs: PathBuf::join) is a function of the directory and the joined text
+pub uninterp spec fn asref_text<P>(p: P) -> Seq<char>;
+pub broadcast axiom fn ax_asref_str(s: &str) ensures #[trigger] asref_text::<&str>(s) == s@;
+pub assume_specification<P: AsRef<std::path::Path>> [FilePath::join] (d: &FilePath, path: P) -> (r: FilePath) ensures r == path_join(*d, asref_text(path));
+pub assume_specification [<FilePath as Clone>::clone] (p: &FilePath) -> (r: FilePath) ensures r == *p;
 /// the path has a parent directory
 pub uninterp spec fn has_parent(p: &FilePath) -> bool;
 /// values of an include map
@@ -56,11 +81,12 @@ pub trait ExSourceDatabase: salsa::Database + salsa::plumbing::HasQueryGroup<ide
 #[verifier::external_trait_specification]
 pub trait ExFileSystem {
     type ExternalTraitSpecificationFor: ide::file_system::FileSystem;
+    /// ASSUMED: handing out an id changes neither what is readable nor the ids of the paths
     fn assign_or_get_file_id(&mut self, path: FilePath) -> (r: FileId)
-        ensures fs_universe(final(self)) == fs_universe(old(self)), fs_universe(final(self)).contains(r);
+        ensures fs_universe(final(self)) == fs_universe(old(self)), fs_universe(final(self)).contains(r), r == fs_id(old(self), path), fs_same(final(self), old(self));
     /// ASSUMED: the path of a file has a parent directory (it is the path of a file, not `/` or the empty path)
     fn path_for_file(&self, file_id: &FileId) -> (r: &FilePath) ensures has_parent(r);
-    fn read_content(&self, file_path: &FilePath) -> Option<String>;
+    fn read_content(&self, file_path: &FilePath) -> (r: Option<String>) ensures r is Some == fs_readable(self, *file_path);
 }
 pub assume_specification [FileSet::new] () -> (r: FileSet) ensures fset(&r) == Set::<FileId>::empty();
 pub assume_specification [FileSet::insert] (s: &mut FileSet, file_id: FileId, path: FilePath) ensures fset(final(s)) == fset(old(s)).insert(file_id);
